@@ -19,7 +19,7 @@ RULE = ('Hypothesis RuleBasedStateMachine over the ASan+UBSan agent with 1-3 pre
         'descriptor after closing it, closes twice, or uses a closed descriptor as a directory handle; distinct by history.')
 ASSUME = ['descriptor numbers are issued by wasi.c; the model only requires freshness, not a particular numbering']
 
-NONTRIVIAL = ('use_after_close', 'double_close', 'closed_as_directory', 'never_issued', 'listed_before_close', 'readdir_on_vanished_directory')
+NONTRIVIAL = ('use_after_close', 'double_close', 'closed_as_directory', 'never_issued', 'listed_before_close', 'readdir_on_vanished_directory', 'closed_standard_stream')
 DIR_CALLS = ('path_open', 'path_filestat_get', 'path_create_directory', 'path_remove_directory', 'path_unlink_file',
              'path_rename_old', 'path_rename_new', 'path_symlink', 'path_readlink', 'fd_readdir')
 
@@ -113,6 +113,12 @@ class C13Machine(RuleBasedStateMachine):
     def write_std(self, which, bufs):
         self.ex.flags.add('stdio')
         self.ex.fd_write(which, bufs)
+
+    @rule(target=closed, which=st.sampled_from([1, 1, 2]))
+    def close_std(self, which):
+        # from here on the number joins the closed ones: every call on it must answer BADF, also after later opens
+        self.ex.close_std(which)
+        return which
 
     @rule(lens=st.lists(st.sampled_from([1, 3, 8]), min_size=1, max_size=2))
     def read_stdin(self, lens):
